@@ -188,10 +188,98 @@ def data_equal(s1, s2, ignore_mtime_of=()):
     return diffs
 
 
-def pmap(fn, items, workers=None):
-    workers = workers or min(16, max(2, NCPU))
-    with cf.ThreadPoolExecutor(max_workers=workers) as ex:
-        return list(ex.map(fn, items))
+def _merge(parent, base, child):
+    """add to `parent` what a worker process changed in its copy `child` of an object that looked like `base` at the fork:
+    numbers are summed, lists extended by the new tail, dicts merged key by key"""
+    if isinstance(child, dict):
+        for k, v in child.items():
+            b = base.get(k) if isinstance(base, dict) else None
+            if isinstance(v, bool) or v is None or isinstance(v, str):
+                if v != b:
+                    parent[k] = v
+            elif isinstance(v, (int, float)):
+                parent[k] = parent.get(k, 0) + (v - (b or 0))
+            elif isinstance(v, dict):
+                _merge(parent.setdefault(k, {}), b if isinstance(b, dict) else {}, v)
+            elif isinstance(v, list):
+                parent.setdefault(k, []).extend(v[len(b) if isinstance(b, list) else 0:])
+            else:
+                parent[k] = v
+    elif isinstance(child, list):
+        parent.extend(child[len(base) if isinstance(base, list) else 0:])
+
+
+def pmap(fn, items, workers=None, state=None, chk=None):
+    """parallel map over worker PROCESSES (fork).  Threads do not help here: the cases spend their time in fork/exec of the tool and in
+    pure Python (content decoding, reference parity), both serialised by the interpreter lock.  What the workers change is brought
+    back explicitly: the violations they report (replayed in the parent through chk.violation, in item order of the workers) and
+    the counters/lists in `state` (default: the .stats and .samples of the object fn is bound to)."""
+    import pickle, copy
+    items = list(items)
+    if not items:
+        return []
+    owner = getattr(fn, '__self__', None)
+    if state is None:
+        state = [getattr(owner, n) for n in ('stats', 'samples') if owner is not None and hasattr(owner, n)]
+    if chk is None:
+        chk = getattr(owner, 'chk', None)
+    W = max(1, min(workers or min(10, max(2, NCPU)), len(items)))
+    base = copy.deepcopy(state)
+    kids = []
+    for w in range(W):
+        rfd, wfd = os.pipe()
+        sys.stdout.flush(); sys.stderr.flush()
+        pid = os.fork()
+        if pid == 0:
+            code = 1
+            try:
+                os.close(rfd)
+                for k_ in kids:
+                    os.close(k_[1])
+                rec = []
+                if chk is not None:
+                    def record(tag, what, replay_obj, no_input=False, finding_key=None, _chk=chk):
+                        rec.append((tag, what, replay_obj, no_input, finding_key))
+                        known = finding_key is not None and any(k.get('status') == 'open' and k.get('property') == _chk.prop and k.get('key') == finding_key for k in _chk.kf)
+                        if not known:
+                            _chk.violations.append((what, None, no_input))      # only counted here (early exit of the families)
+                    chk.violation = record
+                res = []
+                err = None
+                try:
+                    for it in items[w::W]:
+                        res.append(fn(it))
+                except BaseException as e:
+                    import traceback
+                    err = '%s\n%s' % (e, traceback.format_exc()[-1500:])
+                with os.fdopen(wfd, 'wb') as f:
+                    pickle.dump((res, rec, state, err), f)
+                code = 0
+            finally:
+                os._exit(code)
+        os.close(wfd)
+        kids.append((pid, rfd))
+    out = [None] * len(items)
+    errors = []
+    for w, (pid, rfd) in enumerate(kids):
+        with os.fdopen(rfd, 'rb') as f:
+            data = f.read()
+        os.waitpid(pid, 0)
+        if not data:
+            errors.append('worker %d died without a result' % w)
+            continue
+        res, rec, st, err = pickle.loads(data)
+        for i, r in zip(range(w, len(items), W), res):
+            out[i] = r
+        for (tag, what, rep, no_input, key) in rec:
+            chk.violation(tag, what, rep, no_input=no_input, finding_key=key)
+        for p_, b_, c_ in zip(state, base, st):
+            _merge(p_, b_, c_)
+        if err:
+            errors.append(err)
+    if errors:
+        raise RuntimeError('parallel worker failed: ' + errors[0])
+    return out
 
 
 def shim_log(path):
